@@ -4,12 +4,12 @@ import (
 	"context"
 	"crypto/x509"
 	"encoding/pem"
-	"os"
-	"path/filepath"
 	"errors"
 	"fmt"
 	"io"
 	"math/rand/v2"
+	"os"
+	"path/filepath"
 	"reflect"
 	"time"
 
@@ -35,13 +35,13 @@ func (c07) Rule() string {
 }
 func (c07) Components() map[string]string {
 	return map[string]string{
-		"signer.GenericSigner, signer.PluginSigner, notation.SignBlob":  "real",
+		"signer.GenericSigner, signer.PluginSigner, notation.SignBlob":          "real",
 		"verifier.Verify/VerifyBlob, notation.VerifyBlob, outcome.UserMetadata": "real",
-		"signing plugin":   "honest scripted plugin.SignPlugin (raw ECDSA/PSS primitive or envelope through notation-core-go)",
+		"signing plugin":          "honest scripted plugin.SignPlugin (raw ECDSA/PSS primitive or envelope through notation-core-go)",
 		"trust store, revocation": "scripted stubs at the interface seam (always trusting / always OK)",
-		"blob reader":      "simulated stream: short reads, error after k bytes",
-		"clock":            "synctest bubble (signing instant, time passing before verification)",
-		"judge":            "independent payload decoder (exact-key JSON) over notation-core-go envelope verification",
+		"blob reader":             "simulated stream: short reads, error after k bytes",
+		"clock":                   "synctest bubble (signing instant, time passing before verification)",
+		"judge":                   "independent payload decoder (exact-key JSON) over notation-core-go envelope verification",
 	}
 }
 
